@@ -138,6 +138,8 @@ func (t *tcpTransport) Send(ctx context.Context, e envelope) error {
 	if err := t.encoder.Encode(e); err != nil {
 		if errors.Is(err, io.EOF) {
 			t.eof = true
+			// The peer is gone and Close is refused from now on: release the socket
+			_ = t.ctxConn.Close()
 		}
 		return fmt.Errorf("tcp transport: send: %w", err)
 	}
@@ -160,6 +162,8 @@ func (t *tcpTransport) Receive(ctx context.Context) (envelope, error) {
 	if err := t.decoder.Decode(&raw); err != nil {
 		if errors.Is(err, io.EOF) {
 			t.eof = true
+			// The peer is gone and Close is refused from now on: release the socket
+			_ = t.ctxConn.Close()
 		}
 		return nil, fmt.Errorf("tcp transport: receive: %w", err)
 	}
